@@ -44,6 +44,8 @@ TrStep ==
     /\ nsteps' = nsteps + 1
     /\ cx' = cx
     /\ IF mode # "run" THEN UNCHANGED <<vm, mode>>
+       \* an item above one megabyte was produced (logged by its first bytes only): beyond the model, not judged
+       ELSE IF Has(Ev, "big") THEN (mode' = "skip" /\ vm' = vm /\ Emit([k |-> "unmodelled", i |-> l]))
        ELSE IF vm.st # "run"
        THEN /\ Reject(l, [cls |-> "extra-step", st |-> vm.st])
             /\ mode' = "skip" /\ vm' = vm
